@@ -242,6 +242,26 @@ fn parse_decimal_str(s: &str, node: &Node) -> ParseResult<Decimal> {
 /// Parse a CGT file. Amounts are parsed with their original currency; GBP conversion
 /// is deferred to calculation time.
 pub fn parse_file(input: &str) -> std::result::Result<Vec<Transaction>, CgtError> {
+    // A bare CR ends a line like LF and CRLF do, but error positions only count LF: with
+    // CR-only line endings every error was reported on line 1. Turn bare CRs into LFs (same
+    // length, CRLF pairs untouched) so that reported lines match the file.
+    let normalized;
+    let input = if input.contains('\r') {
+        let mut text = String::with_capacity(input.len());
+        let mut chars = input.chars().peekable();
+        while let Some(c) = chars.next() {
+            if c == '\r' && chars.peek() != Some(&'\n') {
+                text.push('\n');
+            } else {
+                text.push(c);
+            }
+        }
+        normalized = text;
+        normalized.as_str()
+    } else {
+        input
+    };
+
     let inputs = CgtParser::parse(Rule::transaction_list, input)
         .map_err(|e| CgtError::ParseError(Box::new(e)))?;
 
